@@ -29,7 +29,7 @@ IDENT = _Ident()
 
 
 def norm_doc(q: str) -> str:
-    return "\n".join(l.rstrip() for l in textwrap.dedent(q).strip().splitlines())
+    return "\n".join(l.rstrip(" \t") for l in textwrap.dedent(q).strip().split("\n"))   # "\n" only: U+2028, \x85 ... are data
 
 
 # ----------------------------------------------------------------------------- annotations
